@@ -7,7 +7,12 @@ import (
 	"path/filepath"
 )
 
-const Dir = "/verif/ref"
+var Dir = func() string {
+	if d := os.Getenv("VERIF_DIR"); d != "" {
+		return filepath.Join(d, "ref")
+	}
+	return "/verif/ref"
+}()
 
 type Enum struct {
 	Tag    int               `json:"tag"`
